@@ -51,7 +51,8 @@ class MultinomialDistribution:
                 )
             self._shape = shape
 
-        self._ps = ps
+        # own copy: the adjustment below writes into self._ps, which must not be the caller's array
+        self._ps = np.array(ps)
         self._eps_zero = eps_zero if eps_zero else 1e-8
 
         # adjust probability distribution
